@@ -103,6 +103,11 @@ OPT_TABLE = {
     "g0::mx_over": ["-", "-", "mx=0", "mx=50000000000,sc=2,ss=1"],
     "gc::inherit_items": ["-", "-", "ci=4,sc=1,ss=1", "-"],
     "gc::plus_bytes": ["-", "-", "ci=4,sc=1,ss=1", "cb=2"],
+    "match::inherit": ["-", "-", "sc=3,ss=2", "-"],
+    "match::size4": ["-", "-", "sc=3,ss=2", "ss=4"],
+    "outer::loop::inherit": ["-", "-", "-", "sc=2,ss=3", "-"],
+    "where::inherit": ["-", "-", "sc=1,ss=1,ig=1", "-"],
+    "where::unignored": ["-", "-", "sc=1,ss=1,ig=1", "ig=0"],
     "g1::inherit": ["-", "-", G1, "-"],
     "g1::size5": ["-", "-", G1, "ss=5"],
     "g1::g2::inherit": ["-", "-", G1, G2, "-"],
